@@ -8,6 +8,7 @@ import RapidModel.Generated.Consts
 import RapidProofs.Shrink
 import RapidModel.Persist
 import RapidProofs.TranslatedPersistEq
+import RapidProofs.TranslatedCheckEq
 
 namespace Rapid.C17
 
@@ -70,5 +71,40 @@ theorem source_loadFailFile_error (bs : Bytes) (fuel : Nat) (hl : (scanLines bs)
   cases h : loadBytes bs with
   | error e => simp [loadT]
   | ok r => obtain ⟨v, sd, b⟩ := r; simp [loadT]
+
+/-! ### `checkFailFile` and `doCheck` of engine.go, translated from /repo on every run -/
+
+/-- **the source's `checkFailFile` is the model's**: it hands back nothing (`nil, nil, nil`) exactly for the files the theorems
+    above call unusable — not loadable, a version string that is not *equal* to `rapidVersion`, a test case that passes or is
+    invalid now — and otherwise the words and the errors of two replays on fresh `*T`s -/
+theorem source_checkFailFile (E : Go.CEnv) (name : String) (o : Option Once) :
+    ∃ o', Go.CM.run E (Translated.checkFailFile name) o = (.ok (Go.ffOut (checkFailFile E.p (E.file name))), o') :=
+  Go.tr_checkFailFile E name o
+
+/-- **the source's `doCheck` with unusable fail files is the source's `doCheck` without any**: whatever `-rapid.failfile` names
+    and the glob finds, if none of it is usable the eight results are those of a run that looks at no file at all (the model's
+    `doCheck … []`): same random test cases, same failure found, same minimized result -/
+theorem source_unusable_files_ignored (E : Go.CEnv) (checks : Nat) (hc : checks < 2 ^ 62) (seed : UInt64) (failfile : String)
+    (globf : Bool) (fuel : Nat) (hl : (Go.failFileNames failfile globf E.found).length < 2 ^ 62)
+    (hfuel : (Go.failFileNames failfile globf E.found).length < fuel)
+    (h : ∀ n ∈ Go.failFileNames failfile globf E.found, checkFailFile E.p (E.file n) = none) :
+    (Go.CM.run E (Translated.doCheck (Int64.ofNat checks) seed failfile globf fuel) none).1 =
+      .ok (Go.dcOut [] (doCheck E.p checks seed [] E.early E.cands)) := by
+  rw [Go.tr_doCheck E checks hc seed failfile globf fuel hl hfuel]
+  have hu := unusable_files_ignored E.p checks seed ((Go.failFileNames failfile globf E.found).map E.file) E.early E.cands
+    (by intro f hf; obtain ⟨n, hn, rfl⟩ := List.mem_map.mp hf; exact h n hn)
+  rw [hu]
+  have hnone : (doCheck E.p checks seed [] E.early E.cands).fromFile = none := by
+    simp only [doCheck, firstFailFile]
+    split <;> (try split) <;> rfl
+  simp [Go.dcOut, hnone]
+
+/-- the hypotheses are satisfiable: a file of a neighbouring version next to an unloadable one, and a property that fails -/
+example : ∀ n ∈ Go.failFileNames "a.fail" true ["b.fail"],
+    checkFailFile (.draw 8 fun w => if w == 5 then Prog.fatal "five" 1 else .ret .nil)
+      ((fun n => if n == "a.fail" then FF.loaded "v0.4.8-rc1" 1 [5] else FF.unloadable) n) = none := by
+  intro n hn
+  simp [Go.failFileNames] at hn
+  rcases hn with rfl | rfl <;> simp [checkFailFile, rapidVersion]
 
 end Rapid.C17
